@@ -18,3 +18,7 @@ nm_size_t verif_f_product(a3_t shape) { return ix::product(shape); }
 nm_size_t verif_f_stride(a3_t shape, nm_size_t k) { return ix::stride(shape,k); }
 // mixed kinds: fixed indices with bounded strides
 nm_size_t verif_m_compute_offset(a3_t indices, sv_t strides) { return ix::compute_offset(indices,strides); }
+// fixed-size containers with a 32-bit element type (index math must still be carried out in size_t)
+using a3u_t = nmtools_array<unsigned int,3>;
+nm_size_t verif_f32_compute_offset(a3u_t indices, a3u_t strides) { return ix::compute_offset(indices,strides); }
+nm_size_t verif_m32_compute_offset(a3u_t indices, sv_t strides) { return ix::compute_offset(indices,strides); }
